@@ -15,7 +15,7 @@ void __vf_ld_untrack(void *p){ size_t o = __CPROVER_POINTER_OBJECT(p); for (int 
    (Subject::notify's snapshot list) are private temporaries of the calling thread */
 void __vf_new_hook(void *p){ if (vf_monitor_on && vf_lock_mode() == 2) __vf_ld_track(p); }
 uint32_t vf_acc_reads, vf_acc_writes;
-void __vf_acc(void *p, uint64_t n, uint32_t kind){
+void __vf_acc(void *p, size_t n, int kind){
   if (!vf_monitor_on) return;
   size_t o = __CPROVER_POINTER_OBJECT(p); _Bool tr = 0;
   size_t off = __CPROVER_POINTER_OFFSET(p);
@@ -25,4 +25,4 @@ void __vf_acc(void *p, uint64_t n, uint32_t kind){
   if (kind & 1) { vf_acc_writes++; __CPROVER_assert(mode == 2, "property: C11 router memory is written only while the Resource is held in write mode"); }
   else { vf_acc_reads++; __CPROVER_assert(mode != 0, "property: C11 router memory is read only while the Resource is held (read or write mode)"); }
 }
-void __vf_hb_acquire(void *o){} void __vf_hb_release(void *o){} void __vf_hb_fork(int c){} void __vf_hb_join(int c){}
+void __vf_hb_acquire(void *o){} void __vf_hb_release(void *o){} void __vf_hb_fork(int c){} void __vf_hb_join(int c){} void __vf_hb_init(void){}
